@@ -3,7 +3,7 @@ import numpy as np
 
 from .. import graphs as G
 from .. import oracles as O
-from .common import call, close, dtype_variants_agree, layout_variants_agree
+from .common import call, close, dtype_variants_agree, layout_variants_agree, padding_invariant
 
 PROP = 'C03'
 ANCHORS = ['distance_bin', 'distance_wei', 'distance_wei_floyd', 'breadthdist', 'reachdist', 'charpath',
@@ -246,5 +246,11 @@ def run(case, bct, REC):
         check_matrix(REC, bct, A, L, sc, directed, big=case.get('big', False) or len(A) > 60)
         if sc in ('dyad', 'real') or (sc == 'bin' and len(A) <= 6):
             check_weights(REC, bct, A, L, directed)
+    if 4 <= len(A) <= 9 and case['ws'] % 9 == 0:   # size-threshold probe: the same network among 300 nodes
+        Li = G.weigh(A, 'int', case['ws'], symmetric=not directed)
+        padding_invariant(REC, PROP, 'distance_bin', bct.distance_bin, A, 300, case['ws'], ('pair',), np.inf)
+        padding_invariant(REC, PROP, 'distance_wei', lambda X: bct.distance_wei(X)[0], Li, 300, case['ws'], ('pair',), np.inf)
+        padding_invariant(REC, PROP, 'breadthdist', bct.breadthdist, A, 300, case['ws'], ('skip', 'pair'), np.inf)
+        padding_invariant(REC, PROP, 'distance_wei_floyd', bct.distance_wei_floyd, Li, 300, case['ws'], ('pair', 'skip', 'skip'), np.inf)
     if len(A) <= 6:
         REC.sample(PROP, {'A': A, 'schemes': case['schemes']}, cap=4)
